@@ -42,6 +42,7 @@ fn n_topic(p: &DcpsDomainParticipant) -> usize {
 #[kani::stub(critical_section::acquire, super::support_cs::cs_acquire)]
 #[kani::stub(critical_section::release, super::support_cs::cs_release)]
 fn c36_tree_delete_publisher() {
+    s1::link_drop_glue();
     let cap = sp::Capture::new();
     let mut p = sp::participant(&cap, 0);
     let ph = s1::new_publisher(&mut p);
@@ -98,6 +99,7 @@ fn c36_tree_delete_publisher() {
 #[kani::stub(critical_section::acquire, super::support_cs::cs_acquire)]
 #[kani::stub(critical_section::release, super::support_cs::cs_release)]
 fn c36_tree_delete_subscriber() {
+    s1::link_drop_glue();
     let cap = sp::Capture::new();
     let mut p = sp::participant(&cap, 0);
     let sh = s1::new_subscriber(&mut p);
@@ -156,6 +158,7 @@ fn c36_tree_delete_subscriber() {
 #[kani::stub(critical_section::release, super::support_cs::cs_release)]
 #[kani::stub(crate::dcps::dcps_domain_participant::participant_entity::DcpsDomainParticipant::announce_deleted_data_writer, super::support_part1::announce_deleted_data_writer_stub)]
 fn c36_tree_delete_writer() {
+    s1::link_drop_glue();
     let cap = sp::Capture::new();
     let mut p = sp::participant(&cap, 0);
     let ph = s1::new_publisher(&mut p);
@@ -206,6 +209,7 @@ fn c36_tree_delete_writer() {
 #[kani::stub(critical_section::release, super::support_cs::cs_release)]
 #[kani::stub(crate::dcps::dcps_domain_participant::participant_entity::DcpsDomainParticipant::announce_deleted_data_reader, super::support_part1::announce_deleted_data_reader_stub)]
 fn c36_tree_delete_reader() {
+    s1::link_drop_glue();
     let cap = sp::Capture::new();
     let mut p = sp::participant(&cap, 0);
     let sh = s1::new_subscriber(&mut p);
@@ -256,6 +260,7 @@ fn c36_tree_delete_reader() {
 #[kani::stub(<crate::xtypes::type_object::TypeInformation as core::convert::From<crate::xtypes::dynamic_type::DynamicType<'static>>>::from, super::support_participant::type_information_stub)]
 #[kani::stub(alloc::fmt::format, super::support_participant::fmt_format_stub)]
 fn c36_topic_delete_used_by_writer() {
+    s1::link_drop_glue();
     let cap = sp::Capture::new();
     let mut p = sp::participant(&cap, 0);
     let _th = s1::new_topic(&mut p, "A");
@@ -311,6 +316,7 @@ fn c36_topic_delete_used_by_writer() {
 #[kani::stub(<crate::xtypes::type_object::TypeInformation as core::convert::From<crate::xtypes::dynamic_type::DynamicType<'static>>>::from, super::support_participant::type_information_stub)]
 #[kani::stub(alloc::fmt::format, super::support_participant::fmt_format_stub)]
 fn c36_topic_delete_used_by_reader() {
+    s1::link_drop_glue();
     let cap = sp::Capture::new();
     let mut p = sp::participant(&cap, 0);
     let _th = s1::new_topic(&mut p, "A");
@@ -377,6 +383,7 @@ fn contained(p: &mut DcpsDomainParticipant) -> (bool, bool, bool) {
 #[kani::stub(crate::dcps::dcps_domain_participant::participant_entity::DcpsDomainParticipant::announce_deleted_data_writer, super::support_part1::announce_deleted_data_writer_stub)]
 #[kani::stub(crate::dcps::dcps_domain_participant::participant_entity::DcpsDomainParticipant::announce_deleted_data_reader, super::support_part1::announce_deleted_data_reader_stub)]
 fn c36_contained_entities_tree() {
+    s1::link_drop_glue();
     let cap = sp::Capture::new();
     let mut p = sp::participant(&cap, 0);
     let (has_pub, has_sub, has_leaf) = contained(&mut p);
@@ -431,6 +438,7 @@ fn contained_topics(with_cft: bool) {
 #[kani::stub(<crate::xtypes::type_object::TypeInformation as core::convert::From<crate::xtypes::dynamic_type::DynamicType<'static>>>::from, super::support_participant::type_information_stub)]
 #[kani::stub(alloc::fmt::format, super::support_participant::fmt_format_stub)]
 fn c36_contained_entities_topics__known() {
+    s1::link_drop_glue();
     contained_topics(true);
 }
 
@@ -448,5 +456,6 @@ fn c36_contained_entities_topics__known() {
 #[kani::stub(<crate::xtypes::type_object::TypeInformation as core::convert::From<crate::xtypes::dynamic_type::DynamicType<'static>>>::from, super::support_participant::type_information_stub)]
 #[kani::stub(alloc::fmt::format, super::support_participant::fmt_format_stub)]
 fn c36_contained_entities_topics__rest() {
+    s1::link_drop_glue();
     contained_topics(false);
 }
